@@ -311,6 +311,13 @@ func hasHashMethod(typ *types.Named) bool {
 func (g *gen) field(fieldName string, fieldType types.Type) (string, error) {
 	switch typ := fieldType.Underlying().(type) {
 	case *types.Basic:
+		if _, named := fieldType.(*types.Basic); !named {
+			// a named type with one of these underlying types has to be converted before it is passed to the math package.
+			switch typ.Kind() {
+			case types.Uint64, types.Float32, types.Float64:
+				fieldName = fmt.Sprintf("%s(%s)", typ.Name(), fieldName)
+			}
+		}
 		switch typ.Kind() {
 		case types.UntypedNil:
 			return "0", nil
